@@ -398,6 +398,43 @@ mod not_wasm_scheduler {
   }
 }
 
+/// Verification hook (compiled only with `--cfg rxrust_verif`): a scheduler whose
+/// "spawn" hands the wrapped task to the embedding test harness instead of an
+/// executor, so that the harness decides which task is polled next. It uses the
+/// same `schedule` body (`impl_scheduler_method!`), `Remote` and `TaskHandle` as
+/// every other scheduler of this crate.
+#[cfg(rxrust_verif)]
+pub mod verif_hook {
+  use super::*;
+  use std::cell::RefCell;
+
+  pub type SpawnedTask = Pin<Box<dyn Future<Output = ()> + 'static>>;
+
+  thread_local! {
+    /// tasks scheduled on this thread and not yet collected by the harness,
+    /// in scheduling order
+    pub static SPAWNED: RefCell<Vec<SpawnedTask>> = RefCell::new(Vec::new());
+  }
+
+  #[derive(Clone, Debug, Default)]
+  pub struct VerifScheduler;
+
+  macro_rules! verif_spawn {
+    ($pool: ident, $future: ident) => {{
+      let _ = $pool;
+      SPAWNED.with(|q| q.borrow_mut().push(Box::pin($future)));
+    }};
+  }
+
+  impl<T> Scheduler<T> for VerifScheduler
+  where
+    T: Future + 'static,
+    T::Output: TaskReturn,
+  {
+    impl_scheduler_method!(verif_spawn);
+  }
+}
+
 #[cfg(all(test, not(target_arch = "wasm32"), feature = "tokio-scheduler"))]
 mod test {
   use crate::{ops::complete_status::CompleteStatus, prelude::*};
